@@ -177,7 +177,7 @@ func genC01(dir, tier string, seed int64) {
 	r := rand.New(rand.NewSource(seed))
 	n := 400
 	if tier == "thorough" {
-		n = 6000
+		n = 20000
 	}
 	cw := newCaseWriter(dir, "C01_symbolic", symHeader, opFooter,
 		"seeded random DAGs over symbolic operators (outputs are hashes of operator id, attribute, input values and output index): 1..3 declared inputs, 0..2 initializers (some also declared as inputs and overridden or not, some shadowed by a caller tensor of the same name), extra caller tensors, 1..12 nodes with fan-in 0..3 and 1..3 outputs, skipped optional inputs (\"\"), omitted and arbitrarily named outputs (1 in 8: names that are prefixes of one another, carry '.', '/', ':' or non-ASCII characters, are 300 characters long or coincide with Y / Y_h / Abs / input / output), one graph in ten with up to 70 nodes, re-bound names, repeated operator types with different attributes; every intermediate declared as a graph output in two cases of three, a random subset of them in the third (the rest of the graph is then dead code, faults included); about 1 case in 6 carries a fault (missing input, unregistered operator type, failing node, undefined name, wrong output count, unbound output); in one case of three the same Model is first run once with other values and every default input overridden; marshalled and loaded with NewModelFromBytes", false, 100)
